@@ -11,11 +11,29 @@ pub type R<T> = Result<T, String>;
 struct In<'a> {
     b: &'a [u8],
     p: usize,
+    /// read noodles' known deviations from the specification instead of the specification
+    dialect: bool,
+    /// which deviations were actually met while reading in dialect mode
+    used: Vec<&'static str>,
 }
 
 impl<'a> In<'a> {
     fn new(b: &'a [u8]) -> Self {
-        In { b, p: 0 }
+        In { b, p: 0, dialect: false, used: Vec::new() }
+    }
+    /// A reader over another buffer that inherits the dialect switch.
+    fn sub<'b>(&self, b: &'b [u8]) -> In<'b> {
+        In { b, p: 0, dialect: self.dialect, used: Vec::new() }
+    }
+    fn absorb(&mut self, other: In) {
+        for u in other.used {
+            self.note(u);
+        }
+    }
+    fn note(&mut self, what: &'static str) {
+        if !self.used.contains(&what) {
+            self.used.push(what);
+        }
     }
     fn u8(&mut self) -> R<u8> {
         let v = *self.b.get(self.p).ok_or("truncated:u8")?;
@@ -96,6 +114,9 @@ impl Table {
 
 /// ReadFrequencies0 of rANS 4x8: symbol list with run-length shortcut, frequencies as ITF8.
 fn read_freqs0_4x8(i: &mut In) -> R<Table> {
+    if i.dialect {
+        return read_freqs0_4x8_dialect(i);
+    }
     let mut t = Table::empty();
     let mut sym = i.u8()? as usize;
     let mut last_sym = sym;
@@ -120,6 +141,62 @@ fn read_freqs0_4x8(i: &mut In) -> R<Table> {
             break;
         }
     }
+    t.cumulate();
+    if t.total > 4096 {
+        return Err("freq-table:total-gt-4096".into());
+    }
+    Ok(t)
+}
+
+/// The inverse of noodles' `rans_4x8::encode::order_0::write_frequencies` as it is (known defects:
+/// a run-length byte after a *first* symbol 1, because "previous symbol" starts out as 0; a run
+/// length of 0 instead of the real one when the run of consecutive symbols reaches 255; the
+/// "previous symbol" is not advanced over a run of length 0). Used only to classify streams the
+/// specification decoder cannot read.
+fn read_symlist_dialect(i: &mut In, what: &'static str, mut item: impl FnMut(&mut In, usize) -> R<()>) -> R<()> {
+    let mut present = [false; 256];
+    let mut prev = 0usize;
+    let mut sym = i.u8()? as usize;
+    let mut first = true;
+    loop {
+        if sym > 0 && sym - 1 == prev {
+            let len = i.u8()? as usize;
+            if first {
+                i.note(if what == "ctx" { "ctxlist-starts-at-1" } else { "symlist-starts-at-1" });
+            }
+            item(i, sym)?;
+            present[sym] = true;
+            for k in 1..=len {
+                if sym + k > 255 {
+                    return Err("freq-table:symbol-run-past-255".into());
+                }
+                item(i, sym + k)?;
+                present[sym + k] = true;
+                prev = sym + k;
+            }
+        } else {
+            item(i, sym)?;
+            present[sym] = true;
+            prev = sym;
+        }
+        first = false;
+        sym = i.u8()? as usize;
+        if sym == 0 {
+            break;
+        }
+    }
+    if present[253] && present[254] && present[255] {
+        i.note(if what == "ctx" { "ctxlist-run-to-255" } else { "symlist-run-to-255" });
+    }
+    Ok(())
+}
+
+fn read_freqs0_4x8_dialect(i: &mut In) -> R<Table> {
+    let mut t = Table::empty();
+    read_symlist_dialect(i, "sym", |i, s| {
+        t.f[s] = i.itf8()?;
+        Ok(())
+    })?;
     t.cumulate();
     if t.total > 4096 {
         return Err("freq-table:total-gt-4096".into());
@@ -155,6 +232,13 @@ fn decode_4x8_o0(i: &mut In, len: usize) -> R<Vec<u8>> {
 
 fn read_freqs1_4x8(i: &mut In) -> R<Vec<Option<Box<Table>>>> {
     let mut tabs: Vec<Option<Box<Table>>> = (0..256).map(|_| None).collect();
+    if i.dialect {
+        read_symlist_dialect(i, "ctx", |i, c| {
+            tabs[c] = Some(Box::new(read_freqs0_4x8_dialect(i)?));
+            Ok(())
+        })?;
+        return Ok(tabs);
+    }
     let mut sym = i.u8()? as usize;
     let mut last_sym = sym;
     let mut rle = 0u32;
@@ -215,7 +299,18 @@ fn decode_4x8_o1(i: &mut In, len: usize) -> R<Vec<u8>> {
 /// Decodes one rANS 4x8 block: 1 byte order, u32 LE compressed size (of what follows the 9-byte
 /// header), u32 LE uncompressed size, then the order-0 / order-1 payload.
 pub fn decode_4x8(src: &[u8]) -> R<Vec<u8>> {
+    decode_4x8_with(src, false).map(|r| r.0)
+}
+
+/// The same with the symbol-list readers replaced by the inverse of noodles' writer; returns the
+/// names of the deviations from the specification that the stream actually contains.
+pub fn decode_4x8_dialect(src: &[u8]) -> R<(Vec<u8>, Vec<&'static str>)> {
+    decode_4x8_with(src, true)
+}
+
+fn decode_4x8_with(src: &[u8], dialect: bool) -> R<(Vec<u8>, Vec<&'static str>)> {
     let mut i = In::new(src);
+    i.dialect = dialect;
     let order = i.u8()?;
     let csize = i.u32le()? as usize;
     let usize_ = i.u32le()? as usize;
@@ -223,7 +318,7 @@ pub fn decode_4x8(src: &[u8]) -> R<Vec<u8>> {
         return Err("header:compressed-size-ne-payload-length".into());
     }
     if usize_ == 0 {
-        return Ok(Vec::new());
+        return Ok((Vec::new(), Vec::new()));
     }
     let out = match order {
         0 => decode_4x8_o0(&mut i, usize_)?,
@@ -233,7 +328,7 @@ pub fn decode_4x8(src: &[u8]) -> R<Vec<u8>> {
     if i.left() != 0 {
         return Err("trailing-bytes-after-last-symbol".into());
     }
-    Ok(out)
+    Ok((out, i.used))
 }
 
 // ------------------------------------------------------------------------------------------------
@@ -251,6 +346,9 @@ pub const F_PACK: u8 = 0x80;
 /// ReadAlphabet: symbol list where a symbol equal to its predecessor + 1 is followed by a count of
 /// further consecutive symbols.
 fn read_alphabet(i: &mut In) -> R<[bool; 256]> {
+    if i.dialect {
+        return read_alphabet_dialect(i);
+    }
     let mut a = [false; 256];
     let mut sym = i.u8()? as usize;
     let mut last_sym = sym;
@@ -261,11 +359,7 @@ fn read_alphabet(i: &mut In) -> R<[bool; 256]> {
             rle -= 1;
             sym += 1;
             if sym > 255 {
-                // the specification's 8-bit arithmetic would wrap to 0 and stop
-                if rle > 0 {
-                    return Err("alphabet:symbol-run-past-255".into());
-                }
-                sym = 0;
+                return Err("alphabet:symbol-run-past-255".into());
             }
         } else {
             sym = i.u8()? as usize;
@@ -274,6 +368,38 @@ fn read_alphabet(i: &mut In) -> R<[bool; 256]> {
             }
         }
         last_sym = sym;
+        if sym == 0 {
+            break;
+        }
+    }
+    Ok(a)
+}
+
+/// The inverse of noodles' `rans_nx16::encode::write_alphabet` as it is: "previous symbol" starts
+/// out as 0, so a *first* symbol 1 is followed by a run-length byte the specification does not have
+/// there (known defect). Everything else that writer emits is readable by the specification reader.
+fn read_alphabet_dialect(i: &mut In) -> R<[bool; 256]> {
+    let mut a = [false; 256];
+    let mut prev = 0usize;
+    let mut sym = i.u8()? as usize;
+    let mut first = true;
+    loop {
+        a[sym] = true;
+        if sym > 0 && sym - 1 == prev {
+            let len = i.u8()? as usize;
+            if first {
+                i.note("alphabet-starts-at-1");
+            }
+            for k in 1..=len {
+                if sym + k > 255 {
+                    return Err("alphabet:symbol-run-past-255".into());
+                }
+                a[sym + k] = true;
+            }
+        }
+        prev = sym;
+        first = false;
+        sym = i.u8()? as usize;
         if sym == 0 {
             break;
         }
@@ -353,10 +479,13 @@ fn read_freqs1_nx16(i: &mut In) -> R<(Vec<Option<Box<Table>>>, u32)> {
         let usz = i.uint7()? as usize;
         let csz = i.uint7()? as usize;
         let cdata = i.take(csz)?;
-        let mut ci = In::new(cdata);
+        let mut ci = i.sub(cdata);
         let owned = decode_nx16_o0(&mut ci, usz, 4)?;
-        let mut sub = In::new(&owned);
-        Ok((read_tables1_nx16(&mut sub, shift)?, shift))
+        i.absorb(ci);
+        let mut sub = i.sub(&owned);
+        let t = read_tables1_nx16(&mut sub, shift)?;
+        i.absorb(sub);
+        Ok((t, shift))
     } else {
         Ok((read_tables1_nx16(i, shift)?, shift))
     }
@@ -413,9 +542,27 @@ fn decode_nx16_o1(i: &mut In, len: usize, n: usize) -> R<Vec<u8>> {
         pos[j] += 1;
         Ok(())
     };
-    for _ in 0..q {
-        for j in 0..n {
-            step(j, &mut r, &mut pos, &mut last, i)?;
+    if i.dialect {
+        // noodles' encoder as it is (known defect): after the first symbol of every chunk, each state
+        // codes its whole chunk in one go instead of taking turns symbol by symbol
+        if q >= 2 {
+            i.note("order1-chunks-not-interleaved");
+        }
+        if q >= 1 {
+            for j in 0..n {
+                step(j, &mut r, &mut pos, &mut last, i)?;
+            }
+            for j in 0..n {
+                for _ in 1..q {
+                    step(j, &mut r, &mut pos, &mut last, i)?;
+                }
+            }
+        }
+    } else {
+        for _ in 0..q {
+            for j in 0..n {
+                step(j, &mut r, &mut pos, &mut last, i)?;
+            }
         }
     }
     while pos[n - 1] < len {
@@ -480,8 +627,10 @@ fn decode_rle_meta(i: &mut In) -> R<(RleMeta, usize)> {
     } else {
         let clen = i.uint7()? as usize;
         let c = i.take(clen)?;
-        let mut ci = In::new(c);
-        decode_nx16_o0(&mut ci, meta_len / 2, 4)?
+        let mut ci = i.sub(c);
+        let m = decode_nx16_o0(&mut ci, meta_len / 2, 4)?;
+        i.absorb(ci);
+        m
     };
     let mut m = In::new(&meta);
     let mut nsym = m.u8()? as usize;
@@ -534,9 +683,12 @@ fn decode_stripe(i: &mut In, len: usize, depth: u32) -> R<Vec<u8>> {
     for j in 0..x {
         let ulen = len / x + usize::from(len % x > j);
         let c = i.take(clens[j])?;
-        let (t, used) = decode_nx16_inner(c, ulen, depth + 1)?;
+        let (t, used, notes) = decode_nx16_inner(c, ulen, depth + 1, i.dialect)?;
         if used != c.len() {
             return Err("stripe:substream-has-trailing-bytes".into());
+        }
+        for u in notes {
+            i.note(u);
         }
         subs.push(t);
     }
@@ -549,18 +701,19 @@ fn decode_stripe(i: &mut In, len: usize, depth: u32) -> R<Vec<u8>> {
     Ok(out)
 }
 
-/// Returns (data, bytes consumed).
-fn decode_nx16_inner(src: &[u8], outer_len: usize, depth: u32) -> R<(Vec<u8>, usize)> {
+/// Returns (data, bytes consumed, dialect deviations met).
+fn decode_nx16_inner(src: &[u8], outer_len: usize, depth: u32, dialect: bool) -> R<(Vec<u8>, usize, Vec<&'static str>)> {
     if depth > 2 {
         return Err("stripe:nested-too-deep".into());
     }
     let mut i = In::new(src);
+    i.dialect = dialect;
     let flags = i.u8()?;
     let mut len = if flags & F_NOSZ == 0 { i.uint7()? as usize } else { outer_len };
     let n = if flags & F_X32 != 0 { 32 } else { 4 };
     if flags & F_STRIPE != 0 {
         let out = decode_stripe(&mut i, len, depth)?;
-        return Ok((out, i.p));
+        return Ok((out, i.p, i.used));
     }
     let mut pack = None;
     if flags & F_PACK != 0 {
@@ -591,18 +744,30 @@ fn decode_nx16_inner(src: &[u8], outer_len: usize, depth: u32) -> R<(Vec<u8>, us
     if let Some((m, l)) = pack {
         data = decode_pack(&data, &m, l)?;
     }
-    Ok((data, i.p))
+    Ok((data, i.p, i.used))
 }
 
 /// Decodes a complete rANS Nx16 stream. `len` is the uncompressed size known from the block header
-/// (only used when the stream carries NO_SIZE).
-pub fn decode_nx16(src: &[u8], len: usize) -> R<Vec<u8>> {
-    let (out, used) = decode_nx16_inner(src, len, 0)?;
-    if out.len() != len {
-        return Err("decoded-length-ne-block-length".into());
+/// (used when the stream carries NO_SIZE, and checked against the result); `None` = the stream
+/// carries its own size (name tokenizer sub-streams).
+pub fn decode_nx16(src: &[u8], len: Option<usize>) -> R<Vec<u8>> {
+    decode_nx16_with(src, len, false).map(|r| r.0)
+}
+
+/// The same reading noodles' known deviations from the specification; returns which ones were met.
+pub fn decode_nx16_dialect(src: &[u8], len: Option<usize>) -> R<(Vec<u8>, Vec<&'static str>)> {
+    decode_nx16_with(src, len, true)
+}
+
+fn decode_nx16_with(src: &[u8], len: Option<usize>, dialect: bool) -> R<(Vec<u8>, Vec<&'static str>)> {
+    let (out, used, notes) = decode_nx16_inner(src, len.unwrap_or(0), 0, dialect)?;
+    if let Some(len) = len {
+        if out.len() != len {
+            return Err("decoded-length-ne-block-length".into());
+        }
     }
     if used != src.len() {
         return Err("trailing-bytes-after-last-symbol".into());
     }
-    Ok(out)
+    Ok((out, notes))
 }
